@@ -84,6 +84,10 @@ KINDS = {
 def build(kind="asan"):
     """Compile drv (or econftool) together with /repo/lib/*.c; cached by a hash of all sources."""
     cc, flags, what = KINDS[kind]
+    if os.environ.get("VERIF_COV") and what == "drv" and kind in ("asan", "plain"):
+        # coverage survey of the machinery itself (bin/coverage): same driver, gcov instrumentation, counters accumulate in
+        # $VERIF_COV across all driver processes of a run
+        cc, flags, kind = "gcc", "-g -O0 --coverage -fprofile-update=atomic", kind + "-cov"
     hsh = src_hash(kind + flags)
     outdir = os.path.join(CACHE, hsh)
     exe = os.path.join(outdir, "drv" if what == "drv" else "econftool")
@@ -105,7 +109,7 @@ def build(kind="asan"):
         cmd += ['-DVERSION="verif"']
     cmd += main + libsrc + ["-o", exe + ".tmp", "-lpthread", "-lm"]
     t0 = time.time()
-    p = subprocess.run(cmd, capture_output=True, text=True, timeout=600)
+    p = subprocess.run(cmd, capture_output=True, text=True, timeout=600, cwd=outdir)
     if p.returncode != 0:
         raise ToolFailure("build (%s) failed:\n%s" % (kind, p.stderr[-4000:]))
     os.replace(exe + ".tmp", exe)
